@@ -41,11 +41,15 @@ def fam(config, profile, only, scale=1.0, level="host"):
     return J(config, profile, level, scale, args={"--only": only}, tag=only.replace("<", "").replace(">", "").replace(",", "_"))
 
 
-def jobs_conf(tier):
-    # one family per property; host level, fast + checked; other back ends are C03's business
-    if tier == "quick":
-        return [J("std", "fast"), J("std", "checked", scale=0.5)]
-    return [J("std", "fast"), J("std", "checked", scale=0.5), J("std", "dev", scale=0.02)]
+def jobs_conf(tier, dispatching=False):
+    # one family per property; host level, fast + checked. BLAKE and JH dispatch over ppv-lite86 back ends:
+    # they are also run on every emulated level and the portable build (the full matrix is C03's business)
+    js = [J("std", "fast"), J("std", "checked", scale=0.5)]
+    if dispatching:
+        js += levels("std", "fast", 0.15) + [J("nosimd", "fast", scale=0.15)]
+    if tier != "quick":
+        js.append(J("std", "dev", scale=0.02))
+    return js
 
 
 def jobs_c08(tier):
@@ -215,7 +219,7 @@ PLANS = {
                 "non-trivial = first operand not all-zero; distinct = FNV-1a of (configuration, case)",
     },
     "C04": {
-        "jobs": jobs_conf,
+        "jobs": lambda tier: jobs_conf(tier, True),
         "rule": "BLAKE-224/256/384/512 x message: exhaustive sweep of every length 0..=3*block+2 (all six content patterns at the "
                 "boundary residues), generated lengths up to 8 blocks biased to k*block-1/k*block/k*block+1, a few long messages; "
                 "content uniform / 00 / ff / 0x80 / counter / single bit; oracle: digest == reference BLAKE (written from the "
@@ -229,7 +233,7 @@ PLANS = {
                 "is non-trivial; distinct = FNV-1a of (configuration, hash, message descriptor)",
     },
     "C06": {
-        "jobs": jobs_conf,
+        "jobs": lambda tier: jobs_conf(tier, True),
         "rule": "JH-224/256/384/512 x message: exhaustive length sweep 0..=194, generated lengths up to 8 blocks with boundary bias, long "
                 "messages; plus Compressor::new/input/finalize on generated arbitrary 1024-bit states and 512-bit blocks (1..3 blocks) "
                 "against the nibble-oriented reference F8; every case is non-trivial; distinct = FNV-1a of (configuration, case)",
